@@ -135,15 +135,18 @@ Ltac lookT Hs Hi :=
   rewrite (look_at _ _ _ _ _ _ Hs Hi); rewrite prefix_of_self; cbn [sbind is_some ret].
 (* the lookaheads before %avoid_insert: %% %token [%actiontype] %start %epp %expect-rr
    %expect-unused %expect *)
-Ltac cascade1 Hs Hi :=
-  do 2 lookF Hs Hi; cbn [is_original]; do 6 lookF Hs Hi.
+Ltac cascade1 yk Hs Hi :=
+  do 2 lookF Hs Hi;
+  rewrite (look_actiontype_skip yk _ _ _ _ _ Hs Hi) by reflexivity; cbn [sbind is_some ret];
+  do 5 lookF Hs Hi.
 (* ... and those up to %left: %avoid_insert %parse-param %parse-generics [%implicit_tokens: Eco only] *)
-Ltac cascade2 Hs Hi :=
-  do 3 lookF Hs Hi; cbn [is_eco]; cbn [sbind is_some ret].
+Ltac cascade2 yk Hs Hi :=
+  do 3 lookF Hs Hi;
+  rewrite (look_implicit_skip yk _ _ _ _ _ Hs Hi) by reflexivity; cbn [sbind is_some ret].
 
-Lemma decl_step_prec : forall k ts, decl_step_for (DPrec k ts).
+Lemma decl_step_prec : forall yk k ts, decl_step_for yk (DPrec k ts).
 Proof.
-  intros kd ts src pre dl rest i f n a g e lvl Hs Hi Hw Hp.
+  intros yk kd ts src pre dl rest i f n a g e lvl Hs Hi Hw _ Hp.
   destruct Hw as [[Hl0 Hc0] [Hne Hw]]. destruct Hp as [Hnd Hnone].
   destruct ts as [|t ts']; [congruence|].
   cbn [print_decl] in Hs. cbn [is_prec].
@@ -168,21 +171,21 @@ Proof.
   { destruct kd; exact (lt_len_at _ _ _ _ _ Hs0 Hi). }
   cbn [decl_loop]. rewrite Hlt. cbn [negb].
   destruct kd; cbn [kw_assoc] in *.
-  - cascade1 Hs0 Hi. cascade2 Hs0 Hi. lookT Hs0 Hi.
+  - cascade1 yk Hs0 Hi. cascade2 yk Hs0 Hi. lookT Hs0 Hi.
     unfold decl_prec.
     rewrite (ws_gap _ _ _ _ _ _ _ _ _ false Hs1 Hi1 Hl0 Hr) by (intros _; exact Hc0).
     cbn [sbind nn]. rewrite Hloop. cbn [sbind].
     unfold decl_eff. cbn [print_decl kw_assoc]. fold T.
     replace (i + byte_len (dg dl 0) + byte_len kw_left) with (i + byte_len kw_left + byte_len (dg dl 0)) by lia.
     f_equal. rewrite !byte_len_app. lia.
-  - cascade1 Hs0 Hi. cascade2 Hs0 Hi. lookF Hs0 Hi. lookT Hs0 Hi.
+  - cascade1 yk Hs0 Hi. cascade2 yk Hs0 Hi. lookF Hs0 Hi. lookT Hs0 Hi.
     unfold decl_prec.
     rewrite (ws_gap _ _ _ _ _ _ _ _ _ false Hs1 Hi1 Hl0 Hr) by (intros _; exact Hc0).
     cbn [sbind nn]. rewrite Hloop. cbn [sbind].
     unfold decl_eff. cbn [print_decl kw_assoc]. fold T.
     replace (i + byte_len (dg dl 0) + byte_len kw_right) with (i + byte_len kw_right + byte_len (dg dl 0)) by lia.
     f_equal. rewrite !byte_len_app. lia.
-  - cascade1 Hs0 Hi. cascade2 Hs0 Hi. do 2 lookF Hs0 Hi. lookT Hs0 Hi.
+  - cascade1 yk Hs0 Hi. cascade2 yk Hs0 Hi. do 2 lookF Hs0 Hi. lookT Hs0 Hi.
     unfold decl_prec.
     rewrite (ws_gap _ _ _ _ _ _ _ _ _ false Hs1 Hi1 Hl0 Hr) by (intros _; exact Hc0).
     cbn [sbind nn]. rewrite Hloop. cbn [sbind].
@@ -268,9 +271,9 @@ Proof.
       f_equal. f_equal. f_equal. subst T. cbn [print_toks]. rewrite !byte_len_app. lia.
 Qed.
 
-Lemma decl_step_avoid : forall ts, decl_step_for (DAvoid ts).
+Lemma decl_step_avoid : forall yk ts, decl_step_for yk (DAvoid ts).
 Proof.
-  intros ts src pre dl rest i f n a g e lvl Hs Hi Hw Hp.
+  intros yk ts src pre dl rest i f n a g e lvl Hs Hi Hw _ Hp.
   destruct Hw as [[Hl0 Hc0] [Hne Hw]]. destruct Hp as [Hnd Hnone].
   destruct ts as [|t ts']; [congruence|].
   cbn [print_decl] in Hs. cbn [is_prec print_decl].
@@ -292,7 +295,7 @@ Proof.
     pose proof (len_utf8_pos 37%N). lia. }
   assert (Hlt : (i <? byte_len src) = true) by exact (lt_len_at _ _ _ _ _ Hs0 Hi).
   cbn [decl_loop]. rewrite Hlt. cbn [negb].
-  cascade1 Hs0 Hi. lookT Hs0 Hi.
+  cascade1 yk Hs0 Hi. lookT Hs0 Hi.
   unfold decl_avoid_insert.
   rewrite (ws_gap _ _ _ _ _ _ _ _ _ false Hs1 Hi1 Hl0 Hr) by (intros _; exact Hc0).
   cbn [sbind nn ast]. unfold decl_eff.
